@@ -50,6 +50,8 @@ def _no_group_commas(toks):
         if (first == "namelist" and kind == "p" and t == "," and k + 3 < n and toks[k + 1] == ("p", "/")
                 and toks[k + 2][0] == "w" and toks[k + 3] == ("p", "/")):
             continue
+        if first == "go" and kind == "p" and t == "," and k > 0 and toks[k - 1] == ("p", ")"):
+            continue         # GO TO (labels) [,] expr
         out.append((kind, t))
     return out
 
@@ -86,8 +88,8 @@ def tok_prog(ctx):
     a = LX.normalise(LX.tokens(src))
     b = LX.normalise(LX.tokens(s1))
     if len(a) != len(b) and len(_no_group_commas(a)) == len(_no_group_commas(b)):
-        # recorded finding: NAMELIST /g1/ a /g2/ b is printed with the optional comma in front of /g2/
-        ctx.check(False, "printed source has more tokens than the program [optional comma added between NAMELIST groups]")
+        # recorded finding: NAMELIST /g1/ a /g2/ b and GO TO (10) i are printed with the optional comma
+        ctx.check(False, "printed source has more tokens than the program [optional comma added: NAMELIST groups, computed GO TO]")
         a, b = _no_group_commas(a), _no_group_commas(b)
     else:
         ctx.check(len(a) == len(b), "printed source has %s tokens than the program" % ("more" if len(b) > len(a) else "fewer"))
